@@ -253,9 +253,14 @@ class Gen:
                     attrs["alpha"] = self.fattr()
                     if op == "Celu" and attrs["alpha"][1] == 0.0:
                         attrs["alpha"] = ["f", 1.0]
-                if in_function is not None and in_function.get("params") and op in ("LeakyRelu", "Elu", "ThresholdedRelu") and r.random() < 0.7:
-                    attrs["alpha"] = ["ref", [1, r.choice(in_function["params"])]]
-                nodes.append({"op": op, "ins": [x], "outs": [o], "attrs": attrs})
+                if in_function is not None and in_function.get("params") and r.random() < 0.5:
+                    # attribute parameter through a Constant (the reference evaluator cannot link attributes of unary ops)
+                    pc = self.fresh()
+                    nodes.append({"op": "Constant", "ins": [], "outs": [pc], "attrs": {"value_float": ["ref", [1, r.choice(in_function["params"])]]}})
+                    nodes.append({"op": "Mul", "ins": [x, pc], "outs": [o], "attrs": {}})
+                    pool.append((pc, "F")); local.append((pc, "F"))
+                else:
+                    nodes.append({"op": op, "ins": [x], "outs": [o], "attrs": attrs})
                 pool.append((o, "F2")); local.append((o, "F2"))
             elif c < 0.68:
                 # optional inputs: Clip(x, min?, max?) with "" and trailing ""
@@ -339,10 +344,10 @@ class Gen:
                 self.ensure_b(nodes, pool, local)
                 nodes.append(self.gen_if(pool, depth, o, in_function))
                 pool.append((o, "F2")); local.append((o, "F2"))
-            elif c < 0.90 and depth > 0:
+            elif c < 0.895 and depth > 0:
                 nodes.extend(self.gen_loop(pool, depth, o, local, in_function))
                 pool.append((o, "F2")); local.append((o, "F2"))
-            elif c < 0.96 and self.functions:
+            elif c < 0.965 and self.functions:
                 f = r.choice(self.functions)
                 ins = [self.pick(pool, "F2") for _ in f["ins"]]
                 if len(ins) > 1 and f.get("optional_last") and r.random() < 0.4:
@@ -355,6 +360,8 @@ class Gen:
                             attrs[p] = ["ref", [1, r.choice(in_function["params"])]]
                         else:
                             attrs[p] = self.fattr()
+                            if p in f["defaults"] and attrs[p][1] == f["defaults"][p][1]:
+                                attrs[p] = ["f", float(attrs[p][1]) + 0.25]
                 nodes.append({"op": f["name"], "dom": f["dom"], "ins": ins, "outs": outs, "attrs": attrs})
                 for q in outs:
                     pool.append((q, "F2")); local.append((q, "F2"))
@@ -461,8 +468,20 @@ class Gen:
             pool.append((cb, "B"))
         else:
             pre = []
+        pnode = None
+        if params and r.random() < 0.8:
+            # the attribute parameter is really used: LeakyRelu(alpha=@param) feeds the first output
+            pnode = self.fresh()
+            pc = self.fresh()
+            pre.append({"op": "Constant", "ins": [], "outs": [pc], "attrs": {"value_float": ["ref", [1, params[0]]]}})
+            pre.append({"op": "Mul", "ins": [ins[0], pc], "outs": [pnode], "attrs": {}})
+            pool.append((pnode, "F2"))
         nodes = pre + self.gen_nodes(pool, r.choice([1, 2, 3, 4]), 1, info, local)
         cands = [n for n, k in local if k == "F2"]
+        if pnode is not None:
+            fo = self.fresh()
+            nodes.append({"op": "Add", "ins": [pnode, r.choice(cands) if cands else ins[-1]], "outs": [fo], "attrs": {}})
+            cands = [fo]
         outs = []
         nout = r.choice([1, 1, 2])
         for j in range(nout):
